@@ -92,6 +92,14 @@ def kronCsr [Mul R] (a b : CSR R) : CSR R :=
       (a.r.getD (i / b.rows) []).flatMap fun p1 =>
         (b.r.getD (i % b.rows) []).map fun p2 => (p1.1 * b.cols + p2.1, p1.2 * p2.2) }
 
+/-- `matmul_csr`: row i of the product accumulates v₁·(row k of `b`) over the stored (k, v₁) of row i
+of `a` (the linked-list accumulator of the kernel, here the same scatter/gather `compress`) -/
+def matmulCsr [Add R] [Mul R] [OfNat R 0] (a b : CSR R) (scale : R) : CSR R :=
+  { rows := a.rows, cols := b.cols,
+    r := (List.range a.rows).map fun i =>
+      compress ((a.r.getD i []).flatMap fun p1 =>
+        (b.r.getD p1.1 []).map fun p2 => (p2.1, scale * (p1.2 * p2.2))) }
+
 /-! ### Dia: (offset, values indexed by column) -/
 structure Dia (R : Type) where
   rows : Nat
